@@ -119,6 +119,10 @@ pub struct IfaceSpec {
     pub dnssl: Option<DnsslSpec>,
     pub captive: Tri<String>,
     pub pref64: Option<Pref64Spec>,
+    /// `max-router-advertisement-interval` (seconds, 4..1800): a setting of the advertisement
+    /// *timer*; nothing in the advertisement's content depends on it
+    #[serde(default)]
+    pub max_interval: Option<u32>,
 }
 
 #[derive(Clone, Debug, Serialize, Deserialize, PartialEq)]
@@ -316,6 +320,10 @@ fn iface_strategy() -> impl Strategy<Value = IfaceSpec> {
         proptest::option::weighted(0.5, pref64),
     )
         .prop_map(|(h, prefixes, rdnss, dnssl, captive, pref64)| IfaceSpec {
+            max_interval: match h.0.val() {
+                Some(v) if v % 3 == 0 => Some([4u32, 10, 600, 1800][(*v as usize / 3) % 4]),
+                _ => None,
+            },
             hop_limit: h.0,
             managed: h.1,
             other: h.2,
@@ -401,6 +409,9 @@ pub fn render_named(c: &RaCase, ifname: &str) -> Option<String> {
     let i = &c.iface;
     let mut it: Vec<(&'static str, Yaml)> = vec![];
     put(&mut it, "hop-limit", &i.hop_limit, |v| Yaml::Integer(*v as i64));
+    if let Some(m) = i.max_interval {
+        it.push(("max-router-advertisement-interval", if m % 60 == 0 { ystr(&format!("{}m", m / 60)) } else { Yaml::Integer(m as i64) }));
+    }
     put(&mut it, "managed", &i.managed, |v| Yaml::Boolean(*v));
     put(&mut it, "other", &i.other, |v| Yaml::Boolean(*v));
     put(&mut it, "lifetime", &i.lifetime, |v| v.yaml());
